@@ -20,6 +20,8 @@ def seeds_table():
 
 def benign_table():
     log = os.path.join(V, ".cache", "benign-all.log")
+    if not os.path.exists(log):
+        log = os.path.join(V, "engine", "benign-last.log")      # (the committed copy of the last battery's results)
     res = {}
     if os.path.exists(log):
         for l in open(log):
